@@ -25,6 +25,14 @@ cp /verif/known-findings.txt "$S/verif/" 2>/dev/null
 cp -r /verif/known "$S/verif/known" 2>/dev/null
 cp -r /verif/corpus "$S/verif/corpus" 2>/dev/null
 export CARGO_NET_OFFLINE=true
+# seed the scratch target with the already compiled third-party crates (path crates are rebuilt from the patched tree)
+SEED_TGT="${VERIF_ENGINE_TARGET:-/verif/engine/target}"
+if [ -d "$SEED_TGT/release" ]; then
+  mkdir -p "$S/target/release"
+  for d in deps build .fingerprint; do [ -d "$SEED_TGT/release/$d" ] && cp -a "$SEED_TGT/release/$d" "$S/target/release/$d"; done
+  # drop artifacts of the path crates so nothing stale can be picked up
+  for c in incan incan_core incan_syntax incan_stdlib incan_derive vcore checks; do rm -rf "$S"/target/release/.fingerprint/$c-* "$S"/target/release/deps/lib$c-* "$S"/target/release/deps/$c-*; done
+fi
 ( cd "$S/engine" && CARGO_TARGET_DIR="$S/target" cargo build --release -q -p incan -p checks --bin incan --bin "$BIN" --bin warm 2>&1 | grep -v '^warning' | tail -30; exit "${PIPESTATUS[0]}" ) \
   || { echo "MUTANT-BUILD-FAILED (the patched repository or the engine against it does not compile)"; cleanup; exit 3; }
 export VERIF_ROOT="$S/verif" VERIF_REPO="$S/repo" VERIF_INCAN="$S/target/release/incan" VERIF_WORKERS="${VERIF_WORKERS:-6}"
